@@ -309,6 +309,40 @@ fn c09_raw(case: &Case) {
     };
     let zstd_on = opts.compression == Compression::Zstd;
     case.check(info.compression == zstd_on as u8, "svs-open-tags", || format!("open reported compression {} for {:?}", info.compression, opts.compression));
+    // sometimes: a cancel from a second connection lands while a `next` of this stream is parked
+    if !payload.fails() && logical.len() >= 4 * chunk && simkernel::choose(6) == 0 {
+        let sid = info.stream_id;
+        let mut s_next = s.try_clone().unwrap();
+        let parked = thread::spawn(move || raw_call(&mut s_next, 5_000, "/_svs/next", beve::to_vec(&NextReq { stream_id: sid }).unwrap()).ok());
+        thread::sleep(Duration::from_micros(pick(&[0u64, 50, 500, 3_000])));
+        if let Ok(mut s2) = TcpStream::connect(addr) {
+            s2.set_read_timeout(Some(Duration::from_secs(600))).ok();
+            let ack = raw_call(&mut s2, 6_000, "/_svs/cancel", beve::to_vec(&CancelReq { stream_id: sid, reason: "from another connection".into() }).unwrap());
+            let first = parked.join().ok().flatten();
+            if let Ok(a) = ack
+                && a.ec == 0
+            {
+                case.probe("cancel_overlapped_a_parked_next");
+                let _ = first;
+                // the stream was released: whatever the overlapped `next` returned, later ones fail
+                let r2 = raw_call(&mut s2, 6_001, "/_svs/next", beve::to_vec(&NextReq { stream_id: sid }).unwrap());
+                if let Ok(r2) = r2 {
+                    case.check(r2.ec != 0, "next-after-cancel-ok", || format!("a cancel acknowledged while a next was in flight was undone: a later next returned a chunk of {} bytes", r2.body.len()));
+                }
+                let r3 = raw_call(&mut s, 5_001, "/_svs/next", beve::to_vec(&NextReq { stream_id: sid }).unwrap());
+                if let Ok(r3) = r3 {
+                    case.check(r3.ec != 0, "next-after-cancel-ok", || format!("a cancel acknowledged while a next was in flight was undone: a later next (original connection) returned {} bytes", r3.body.len()));
+                }
+            }
+        } else {
+            parked.join().ok();
+        }
+        case.nontrivial();
+        drop(s);
+        net::shutdown_all();
+        server.join().ok();
+        return;
+    }
     // optional early cancel
     let cancel_after = if simkernel::choose(5) == 0 { Some(range(0, 3)) } else { None };
     let mut chunks: Vec<Vec<u8>> = Vec::new();
